@@ -66,14 +66,14 @@ CHECKS = {
     "C12": (
         "model_checking",
         "bounded-exhaustive enumeration of input strings (all strings over a lexical-class alphabet up to a length; context prefix x all short strings; all single edits of seeds) through every parser entry point in watched child processes",
-        "For each of nine entry points (ASTWithValidityInfo::new + YaccGrammar::new for the five yacc kinds, ASTWithValidityInfo/YaccGrammar::from_str, LRNonStreamingLexerDef::from_str, GrmtoolsSectionParser::parse optional/required): every string of up to 3 (thorough 4) symbols over a 37-symbol alphabet with a representative of every lexical class incl. multi-byte characters and every class of white space the parsers distinguish (blank, tab, LF, CR, VT, FF, NEL, line separator, no-break space, left-to-right mark); every one of ~50 context prefixes followed by every string of up to 2 (3) symbols; every truncation and every single-character deletion / substitution / insertion of the seed specifications (hand-written ones - among them a Grmtools grammar whose rules are written in several pieces with a differently spelt type - and the repository's examples); decimal strings around 2^8, 2^16, 2^32, 2^64, 2^128 in every numeric position. Oracle: returns within the limit, no panic, a value or a non-empty error list, every span of every error and warning within the text and on character boundaries, and the diagnostic formatter renders it.",
+        "For each of nine entry points (ASTWithValidityInfo::new + YaccGrammar::new for the five yacc kinds, ASTWithValidityInfo/YaccGrammar::from_str, LRNonStreamingLexerDef::from_str, GrmtoolsSectionParser::parse optional/required): every string of up to 3 (thorough 5) symbols over a 39-symbol alphabet with a representative of every lexical class incl. multi-byte characters and every class of white space the parsers distinguish (blank, tab, LF, CR, VT, FF, NEL, line separator, no-break space, left-to-right mark); every one of ~50 context prefixes followed by every string of up to 2 (3) symbols; every truncation and every single-character deletion / substitution / insertion of the seed specifications (hand-written ones - among them a Grmtools grammar whose rules are written in several pieces with a differently spelt type - and the repository's examples); decimal strings around 2^8, 2^16, 2^32, 2^64, 2^128 in every numeric position. Oracle: returns within the limit, no panic, a value or a non-empty error list, every span of every error and warning within the text and on character boundaries, and the diagnostic formatter renders it.",
         "Pairs of edits and longer free strings are outside the bound. A timeout is a verdict only after the single input was re-run alone with a longer limit.",
         "DESIGN.md 3/C12",
     ),
     "C19": (
         "model_checking",
         "exhaustive enumeration of all strings up to a length bound x all chunkings x all offsets x all spans against a naive line/column reference",
-        "Every string of up to 7 (thorough 9) characters over {a, two-byte e-acute, LF, CR}, every way of feeding it to the cache in up to four pieces (empty pieces included), every character-boundary offset and every span on character boundaries: line number, line start, line/column and line extent are compared with a three-line naive reference and nothing may panic; offsets beyond the text must be refused. For the shorter strings the same is done through LRNonStreamingLexer::{line_col, span_lines_str} (line_col of every span must also equal the cache's own answer for its two ends) and through LexParseError::pp for a real lexing error and a real parsing error placed at every position.",
+        "Every string of up to 7 (thorough 12) characters over {a, two-byte e-acute, LF, CR}, every way of feeding it to the cache in up to four pieces (empty pieces included), every character-boundary offset and every span on character boundaries: line number, line start, line/column and line extent are compared with a three-line naive reference and nothing may panic; offsets beyond the text must be refused. For the shorter strings the same is done through LRNonStreamingLexer::{line_col, span_lines_str} (line_col of every span must also equal the cache's own answer for its two ends) and through LexParseError::pp for a real lexing error and a real parsing error placed at every position.",
         "A non-empty span ending exactly on a line start may or may not include that next line (the repository's own test pins 'includes'); the LF of a CR LF pair may carry the CR's column or the next.",
         "DESIGN.md 3/C19",
     ),
@@ -102,7 +102,7 @@ CHECKS = {
         "model_checking",
         "bounded-exhaustive enumeration of acyclic grammars x inputs (incl. repeated-error inputs) under a watched process per grammar; progress and outcome invariants on every returned error list; termination by watchdog + memory limit",
         "Every acyclic grammar of the universes and families, every input up to the bound plus 2-4 fold repetitions of every short input (many independent errors), parsed by the real recovering parser in watched child processes (per-parse progress marks, time and memory limits). Every returned result must have strictly increasing error positions at least three lexemes (or the rest of the input) apart, at most |input|+1 errors, repairs on every error but the last, a value iff every error has a repair, and an Earley-accepted input when there is a value and no error. A parse that does not return is a violation unless explained by the listed known finding (reduction loop in the table, detected by the reference driver and confirmed on the real parser). Deadline pass: the environment answer 'the recovery deadline passes during the search' is forced on every grammar of <= 2 tokens (one more, unmentioned token; inputs w1 u^40 w2; wall-clock budget 1 ms, no step limit); the same invariants must hold, in particular no value and a last error without repairs - never an empty error list.",
-        "Quick tier: grammars whose table has a reduction loop (known finding C07-a) only get the plain-parse screen. Wall budget replaced by a step budget (H1/H2) except in the deadline pass; all invariants hold whatever the budget; how many parses of the deadline pass actually run out of time depends on the machine (reported, and required to be > 0).",
+        "Grammars whose table has a reduction loop (known finding C07-a) only get the plain-parse screen (thorough tier: the first 40 of them are run in full, each killed parse costing a watchdog timeout and a resubmission). Wall budget replaced by a step budget (H1/H2) except in the deadline pass; all invariants hold whatever the budget; how many parses of the deadline pass actually run out of time depends on the machine (reported, and required to be > 0).",
         "DESIGN.md 3/C07",
     ),
     "C01": (
